@@ -1,7 +1,8 @@
 #!/bin/bash
 # run every claimed check (quick by default) on the current tree; prints one line per check
 tier="${1:-quick}"
-cd /verif
+cd "$(dirname "$0")/.."
+ROOT="$(pwd)"
 ids=$(python3 -c "import json; print(' '.join(c['property_id'] for c in json.load(open('MANIFEST.json'))['checks']))")
 rc_all=0
 for id in $ids; do
@@ -10,9 +11,9 @@ for id in $ids; do
   end=$(date +%s)
   echo "$id rc=$rc $((end-start))s $(echo "$out" | grep -E "^$id $tier" | tail -1)"
   if [ $rc -ne 0 ]; then rc_all=1; echo "$out" | grep -E "FAILURE|VIOLATION|INCONCLUSIVE" | head -5; fi
-  python3-vt - "$id" <<'PY'
+  python3-vt - "$id" "$ROOT" <<'PY'
 import json,sys,jsonschema
-e=json.load(open(f"/verif/evidence/{sys.argv[1]}.json"))
+e=json.load(open(f"{sys.argv[2]}/evidence/{sys.argv[1]}.json"))
 jsonschema.validate(e,json.load(open('/root/.vp/EVIDENCE.schema.json')))
 PY
 done
